@@ -1621,7 +1621,7 @@ fn mutate(base: &BaseFont, all: &[BaseFont], rng: &mut Rng) -> (Vec<u8>, String)
             }
             9 | 10 => {
                 let p = pos_in(rng, o, l) & !1;
-                let v = *rng.pick(&[0u32, 1, 0xFFFF_FFFF, 0x7FFF_FFFF, 0x8000_0000, l as u32, l as u32 - 1, l as u32 + 1, len as u32, 0x0001_0000, 0xFFFF]);
+                let v = *rng.pick(&[0u32, 1, 0xFFFF_FFFF, 0x7FFF_FFFF, 0x8000_0000, l as u32, (l as u32).saturating_sub(1), l as u32 + 1, len as u32, 0x0001_0000, 0xFFFF]);
                 put(&mut b, p, &be32(v));
                 format!("{}:u32@{}={}", tg, p, v)
             }
@@ -1642,13 +1642,13 @@ fn mutate(base: &BaseFont, all: &[BaseFont], rng: &mut Rng) -> (Vec<u8>, String)
             13..=15 => {
                 // offset redirection: to self (0), to the parent start, to the end, just inside the end, to another field
                 let p = pos_in(rng, o, l) & !1;
-                let rel = p - o;
+                let rel = p.saturating_sub(o);
                 let v: u32 = match rng.below(7) {
                     0 => 0,
                     1 => rel as u32,
                     2 => l as u32,
-                    3 => l as u32 - 1,
-                    4 => l as u32 - 2,
+                    3 => (l as u32).saturating_sub(1),
+                    4 => (l as u32).saturating_sub(2),
                     5 => rng.below(l as u64) as u32,
                     _ => (rel as u32).saturating_sub(rng.below(8) as u32),
                 };
@@ -1677,7 +1677,7 @@ fn mutate(base: &BaseFont, all: &[BaseFont], rng: &mut Rng) -> (Vec<u8>, String)
                 if nrec > 0 && 12 + 16 * nrec <= b.len() {
                     let r = 12 + 16 * rng.below(nrec as u64) as usize;
                     let which = rng.below(2) as usize;
-                    let v = *rng.pick(&[0u32, 1, len as u32, len as u32 - 1, len as u32 + 1, 0xFFFF_FFFF, 0x8000_0000, 12, o as u32, (o + l) as u32]);
+                    let v = *rng.pick(&[0u32, 1, len as u32, (len as u32).saturating_sub(1), len as u32 + 1, 0xFFFF_FFFF, 0x8000_0000, 12, o as u32, (o + l) as u32]);
                     put(&mut b, r + 8 + 4 * which, &be32(v));
                     format!("dir:rec@{}.{}={}", r, if which == 0 { "offset" } else { "length" }, v)
                 } else {
@@ -1832,7 +1832,7 @@ fn fuzz(seed: u64, thorough: bool, st: &mut Stats, dir: &std::path::Path) {
     st.v.insert("fonts".into(), fonts.len().into());
     paint_id_purity(&fonts, st);
     // deterministic case list: (font index, mutation id); per-font case count grows slowly with size
-    let scale: f64 = std::env::var("C01_SCALE").ok().and_then(|s| s.parse().ok()).unwrap_or(if thorough { 8.0 } else { 1.0 });
+    let scale: f64 = std::env::var("C01_SCALE").ok().and_then(|s| s.parse().ok()).unwrap_or(if thorough { 60.0 } else { 6.0 });
     let mut cases: Vec<(usize, u64)> = vec![];
     for (fi, f) in fonts.iter().enumerate() {
         let per = ((3.0e6 / (f.bytes.len() as f64 + 1500.0)).clamp(40.0, 1400.0) * scale) as u64;
@@ -1864,7 +1864,13 @@ fn fuzz(seed: u64, thorough: bool, st: &mut Stats, dir: &std::path::Path) {
                         started[th].store(t0.elapsed().as_millis() as u64, Ordering::SeqCst);
                         // purity re-runs on a deterministic 1/8 of the cases and on every unmutated font
                         let purity = mid == 0 || (i / 16) % 8 == 0;
-                        local.push(run_case(&fonts[fi], &fonts, seed, i, mid, budget, purity));
+                        match std::panic::catch_unwind(std::panic::AssertUnwindSafe(|| run_case(&fonts[fi], &fonts, seed, i, mid, budget, purity))) {
+                            Ok(r) => local.push(r),
+                            Err(_) => {
+                                eprintln!("harness bug: case generation panicked at {} (font {} mutation {})", last_loc(), fonts[fi].name, mid);
+                                std::process::exit(3);
+                            }
+                        }
                         i += 16;
                     }
                     progress[th].store(usize::MAX, Ordering::SeqCst);
